@@ -28,9 +28,9 @@ ASSUMPTIONS = [
     "scipy contours (seconds each) only in the thorough tier",
 ]
 
-QUERIES = ["cov", "cor", "hessian", "hessian_inv", "asym", "profile_sigma", "profile_cl", "profile_lowhigh", "contour", "band", "report", "report_asym",
+QUERIES = ["cov", "cor", "hessian", "hessian_inv", "asym", "profile_sigma", "profile_cl", "profile_lowhigh", "profile_mix", "contour", "band", "report", "report_asym",
            "result_dict", "result_dict_asym", "plot", "to_file", "save_state", "errors", "values", "gof"]
-EXCURSIONS = {"asym", "profile_sigma", "profile_cl", "profile_lowhigh", "contour", "report_asym", "result_dict_asym"}
+EXCURSIONS = {"asym", "profile_sigma", "profile_cl", "profile_lowhigh", "profile_mix", "contour", "report_asym", "result_dict_asym"}
 
 
 @st.composite
@@ -59,7 +59,9 @@ def strat(draw, tier="quick"):
                 s_[key] = [v * float(vals.max()) for v in s_[key]]
     allowed = [q for q in QUERIES if not (mini == "scipy" and q == "contour" and tier == "quick")]
     allowed = allowed + [q for q in allowed if q in EXCURSIONS] * 2  # excursion-type queries are the interesting ones
-    ops = draw(st.lists(st.fixed_dictionaries({"q": st.sampled_from(allowed), "par": st.integers(0, 3), "k": st.floats(0.5, 2.5), "cl": st.sampled_from([0.6827, 0.9, 0.95])}),
+    ops = draw(st.lists(st.fixed_dictionaries({"q": st.sampled_from(allowed), "par": st.integers(0, 3), "k": st.floats(0.5, 2.5), "cl": st.sampled_from([0.6827, 0.9, 0.95]),
+                                                  # profile_mix: any combination of an explicit lower / upper end with a sigma or confidence level for the other end(s)
+                                                  "mix": st.sampled_from(["low", "high", "low+cl", "high+cl", "low+sigma", "high+sigma", "low+high+cl"])}),
                         min_size=2, max_size=7 if tier == "quick" else 14))
     return {"spec": spec, "ops": ops}
 
@@ -172,15 +174,28 @@ def run(case):
             elif q == "asym":
                 r_ = fit.asymmetric_parameter_errors
                 res = None if r_ is None else np.asarray(r_, float)
-            elif q in ("profile_sigma", "profile_cl", "profile_lowhigh"):
+            elif q in ("profile_sigma", "profile_cl", "profile_lowhigh", "profile_mix"):
                 cpf = kafe2.ContoursProfiler(fit, profile_points=5, profile_subtract_min=bool(i % 2))
                 if q == "profile_sigma":
                     res = np.asarray(cpf.get_profile(par, sigma=op["k"]), float)
                 elif q == "profile_cl":
                     res = np.asarray(cpf.get_profile(par, cl=op["cl"]), float)
+                elif q == "profile_mix":
+                    mix = op.get("mix", "low+cl").split("+")
+                    kw = {}
+                    if "low" in mix:
+                        kw["low"] = snap["p"][pi] - op["k"] * snap["e"][pi]
+                    if "high" in mix:
+                        kw["high"] = snap["p"][pi] + 0.5 * op["k"] * snap["e"][pi]
+                    if "cl" in mix:
+                        kw["cl"] = op["cl"]
+                    if "sigma" in mix:
+                        kw["sigma"] = op["k"]
+                    labels.add("profile_mix:" + op.get("mix", "low+cl"))
+                    res = np.asarray(cpf.get_profile(par, **kw), float)
                 else:
                     res = np.asarray(cpf.get_profile(par, low=snap["p"][pi] - op["k"] * snap["e"][pi], high=snap["p"][pi] + 0.5 * op["k"] * snap["e"][pi]), float)
-                key = (q, par, bool(i % 2), round(op["k"], 6), op["cl"])
+                key = (q, par, bool(i % 2), round(op["k"], 6), op["cl"], op.get("mix") if q == "profile_mix" else None)
             elif q == "contour":
                 if len(free) < 2:
                     continue
